@@ -1,4 +1,29 @@
-"""C15 - Pattern scanners report exactly the true occurrences (structural conditions)."""
+"""C15 - Pattern scanners report exactly the true occurrences (structural conditions).
+
+Subjects are located by role: the haystack is `<carry> + <block read from the stream parameter>`, the match index is the
+local every `hay.find(needle, ..)` result is bound to, the position is the local bound to `fp.tell()`; for the ArtifactKit
+scanner the position variable is the argument of the loop's `seek`, the header is the first 4-byte read after it.  A
+subject that cannot be located is undecided, a located subject that fails its condition is violated.
+
+Technique (numbers: ALLOWED devices of RULES_GUIDE.md, "What counts as static here")
+  R1  3 (provenance of every definition of the carry: empty constant, slice of the previous haystack; anything else is
+      synthetic bytes), 2 (yields guarded by a start comparison).
+  R2  4 (interval abstract interpretation - csverif.absint.Interp - of the tail-slice bound under `needle non-empty`:
+      the interval must exclude 0, or the slice is guarded by the bound's truthiness; lemma: `d[-0:]` is all of d).
+  R3  3 (the yielded value with single-definition temporaries substituted, in polynomial normal form: position before the
+      read + match index - len(carry)), 2 (the carry is not rebound between its concatenation and the statement that takes
+      its length; `tell()` dominates the read with no other movement of the file in between; the start seek is guarded by
+      `start_offset is not None`).
+  R4  3 + 5 (every binding of the match index is one of the finitely many forms `-1`, `find(needle)`, `find(needle, 0)`
+      (start of a new haystack) or `find(needle, index + 1)`), 3 (carry length = len(needle) - 1 in polynomial normal form),
+      2 (outer loop exits only under the empty-read or the limit test - dominating conditions).
+  R5  2 + 3 (stop conditions of `if` tests and loop headers in negation normal form: the limit applies only when
+      max_offset is truthy and compares strictly with the block start or the match index), 6 (default).
+  R6  2 (loop progress, csverif.loops), 3 (all rebindings of the position add exactly 1 - polynomial difference; the header
+      test `<little-endian unsigned 32-bit decode of the 4 header bytes> ==/!= <position> + 16` with the decode recognised
+      through resolved `utils.unpack` partials / `int.from_bytes` and the header bytes followed by reaching definitions;
+      the field reads on the matching edge in evaluation order with constant widths 4, 4, 8 and the decoded size; the
+      record fields bound by NamedTuple field order and followed to those reads), 6 (constants)."""
 
 from __future__ import annotations
 
